@@ -214,7 +214,7 @@ def run(ctx):
                 "(shapes up to 2 inputs x 2 outputs x 2 witness items, length classes 0/1/252/253/65535/65536, blocks of up to "
                 "%d transactions of every pool combination plus long blocks of 8..%d transactions in four patterns (small, mixed, "
                 "3-9 kB transactions) whose bytes cross lib/btc's 4096-byte hashing packs never / once / many times; truncations at and inside every field, every non-minimal CompactSize form, counts -1/+1/huge, "
-                "flag bytes 0/2/3, trailing bytes); each case is concretised (seeded random content) and run on lib/btc; "
+                "flag bytes 00/02/03/04/05/81, trailing bytes); each case is concretised (seeded random content) and run on lib/btc; "
                 "plus seeded truncations / single-byte / byte+truncation mutations of valid encodings judged by the reference decoder; "
                 "distinct_nontrivial counts distinct non-empty byte strings given to the decoders" % ((2, 300) if quick else (3, 1000))})
     ctx.assumptions += [
